@@ -519,6 +519,9 @@ pub enum TraceLine {
     B(String),
     U(String),
     S(String),
+    /// Fine-grained mode: the segment that follows ends with this agent parked in the middle of a
+    /// critical section (`<aid> <InCs site>`); printed before the segment's `l` lines.
+    M(String),
     Comment(String),
 }
 
@@ -530,6 +533,7 @@ impl TraceLine {
             TraceLine::B(s) => format!("b {}", s),
             TraceLine::U(s) => format!("u {}", s),
             TraceLine::S(s) => format!("s {}", s),
+            TraceLine::M(s) => format!("m {}", s),
             TraceLine::Comment(s) => format!("# {}", s),
         }
     }
